@@ -167,6 +167,35 @@ func registerStd(e *Engine) {
 		R(name, func(fr *frame, a []value) value {
 			// concrete fast path keeps map keys / ids meaningful
 			switch name {
+			case "fmt.Sprintf":
+				// concrete format and concrete basic arguments: format natively
+				// (identifiers such as "LP-%d" feed back into state)
+				if f, ok := a[0].(string); ok {
+					var ga []interface{}
+					okAll := true
+					for _, x := range a[1].([]value) {
+						it, isI := x.(iface)
+						if !isI {
+							okAll = false
+							break
+						}
+						if _, hasStr := it.t.(*types.Named); hasStr {
+							if b, isB := it.t.Underlying().(*types.Basic); !isB || b.Info()&types.IsInteger == 0 || strings.Contains(f, "%s") || strings.Contains(f, "%v") {
+								okAll = false
+								break
+							}
+						}
+						switch v := it.v.(type) {
+						case int, int8, int16, int32, int64, uint, uint8, uint16, uint32, uint64, string, bool:
+							ga = append(ga, v)
+						default:
+							okAll = false
+						}
+					}
+					if okAll {
+						return fmt.Sprintf(f, ga...)
+					}
+				}
 			case "strconv.Itoa":
 				if _, ok := a[0].(int); ok {
 					return strconv.Itoa(a[0].(int))
